@@ -46,6 +46,11 @@ func readTlvStream(
 				break
 			}
 
+			if len > defn.MaxNDNPacketSize {
+				// The length cannot belong to a valid packet (and may not even fit an int)
+				return errors.New("received TLV block larger than the maximum packet size")
+			}
+
 			tlvSize := typ.EncodingLength() + len.EncodingLength() + int(len)
 
 			if recvOff-tlvOff >= tlvSize {
